@@ -13,8 +13,8 @@ from common import Infra, run_tlc, Scratch, log
 # which P predicates decide which property (PipeProps.Verdicts)
 PREDS = {
     "C05": ["Prefix", "SeqExact", "FoldRes", "Complete", "TakeBound", "CallsPrefix", "CallsComplete", "Settle1"],
-    "C06": ["NoPanic", "Prefix", "FoldRes", "Settle1", "Settle2", "GenExact", "GenSettle", "JoinPerInput", "JoinNothingInvented"],
-    "C07": ["Prefix", "Complete", "CallsPrefix", "CallsComplete", "Settle1", "NoPanic", "GenExact", "GenSettle"],
+    "C06": ["NoPanic", "Prefix", "FoldRes", "Settle1", "Settle2", "LiftCloses", "GenExact", "GenSettle", "JoinPerInput", "JoinNothingInvented"],
+    "C07": ["Prefix", "Complete", "CallsPrefix", "CallsComplete", "Settle1", "LiftCloses", "NoPanic", "GenExact", "GenSettle"],
     "C08": ["NeverBlocksSender", "Prefix", "LosslessAfterCancel", "Complete", "Settle1", "NewSettle", "NoPanic"],
     "C09": ["Prefix", "Complete", "CallsPrefix", "CallsComplete", "NoPanic", "Settle1", "Settle2"],
     "C10": ["FoldRes", "Complete", "CallsComplete", "Settle1", "NoPanic"],
@@ -24,7 +24,7 @@ PREDS = {
 }
 STAGE_INV = {"Prefix": "PrefixInv", "FoldRes": "FoldResInv", "Complete": "CompleteInv", "TakeBound": "TakeBoundInv",
              "CallsPrefix": "CallsPrefixInv", "CallsComplete": "CallsCompleteInv", "NoPanic": "NoPanicInv",
-             "Settle1": "Settle1Inv", "Settle2": "Settle2Inv"}
+             "Settle1": "Settle1Inv", "Settle2": "Settle2Inv", "LiftCloses": "LiftClosesInv"}
 SEQ_KINDS = ["Map", "FMap", "Filter", "ForEach", "Void", "Fold", "Partition", "Take", "TakeWhile"]
 
 
@@ -66,6 +66,9 @@ def stage_cfgs(pid, tier, rng):
                     if th:
                         mc.append(C(inputs=[[1, 2, 3, 4]], **base))
                 rnd.append(C(inputs=[[1, 2, 3, 4, 5]], n=rng.randint(0, 6), **base))
+                if cap == 1:
+                    # repeated and unordered values (an element is not identified by its value)
+                    rnd.append(C(inputs=[[2, 2, 1, 1, 3, 2, 3]], n=rng.randint(1, 8), **base))
             # the empty input and a gated run of the user function
             mc.append(C(kind=kind, cap=1, mode="pure", pred=[1, 3], monoid="digits9", inputs=[[]], n=1))
             if kind not in ("Void", "Take"):
@@ -124,6 +127,9 @@ def stage_cfgs(pid, tier, rng):
                             gen.append(C(inputs=[[1, 2]] if kind == "FMap" or par == 2 else [[1, 2, 3]], **base))
                     rnd.append(C(inputs=[[1, 2, 3, 4, 5]], **base))
                     rnd.append(C(inputs=[[1, 2, 3, 4, 5, 6]], **dict(base, gate=False)))
+            for par in (4, 8):
+                rnd.append(C(kind=kind, forked=True, par=par, cap=2, mode="try" if kind in ("Map", "FMap") else "pure", pred=[1, 3],
+                             fail=[2] if kind in ("Map", "FMap") else [], inputs=[[3, 1, 2, 2, 1, 3, 4, 4]], gate=kind != "Void" and par == 4))
             if kind in ("Map", "FMap"):
                 # Lift under parallel workers: only the panic / closure / no-leak clauses apply (PipeProps!Unspecified)
                 for par, fail in ((2, [1, 2]), (3, [1, 2, 3]), (3, [2, 3, 4]), (4, [1, 2, 3, 4])):
@@ -166,7 +172,7 @@ GenEmit == (~ENABLED Lib) => PrintT(ToJson([t |-> "sched", cfg |-> cfg.id, cmds 
 MODEL_CONST = {"Gen": " MaxT <- MCMaxT\n MaxCalls <- MCMaxCalls\nCONSTRAINT Bounded\n", "Throttle": " MaxT <- MCMaxT\n"}
 MODEL_INV = {
     "Stage": STAGE_INV,
-    "Gen": {"GenExact": "GenExactInv", "EmitPaced": "EmitPacedInv", "EmitKeepUp": "EmitKeepUpInv", "GenSettle": "GenSettleInv", "Settle2": "Settle2Inv"},
+    "Gen": {"GenExact": "GenExactInv", "EmitPaced": "EmitPacedInv", "EmitKeepUp": "EmitKeepUpInv", "GenSettle": "GenSettleInv", "Settle2": "Settle2Inv", "LiftCloses": "LiftClosesInv"},
     "Throttle": {"Prefix": "PrefixInv", "Complete": "CompleteInv", "ThrottleWindow": "ThrottleWindowInv", "ThrottlePaced": "ThrottlePacedInv",
                  "Settle1": "Settle1Inv", "Settle2": "Settle2Inv"},
     "JoinStage": {"JoinPerInput": "JoinPerInputInv", "JoinNothingInvented": "JoinNothingInventedInv", "JoinComplete": "JoinCompleteInv",
@@ -291,7 +297,7 @@ def check(run, replay=None):
         g = res[1] or []
         if pid == "C05":
             scheds += [dict(s, epilogue="drain") for s in g]
-            scheds += rand_scheds(rnd, rng, nrand, ["drain", "closewait"], weights=dict(send=4, close=1, recv=4, cancel=0, release=4, advance=0))
+            scheds += rand_scheds(rnd, rng, nrand, ["drain", "closewait"], weights=dict(send=4, close=1, recv=4, cancel=0, release=4, advance=0, burst=2))
         elif pid == "C06":
             for s in g:
                 scheds.append(dict(s, epilogue="cancel"))
@@ -299,15 +305,16 @@ def check(run, replay=None):
             scheds += rand_scheds(rnd + other_cfgs("C06", th, rng), rng, nrand, ["cancel", "closewait", "drain"])
         elif pid == "C07":
             scheds += [dict(s, epilogue="drain") for s in g]
-            scheds += rand_scheds(rnd + other_cfgs("C07", th, rng), rng, nrand, ["drain", "closewait"], weights=dict(send=4, close=1, recv=4, cancel=0, release=4, advance=1))
+            scheds += rand_scheds(rnd + other_cfgs("C07", th, rng), rng, nrand, ["drain", "closewait"], weights=dict(send=4, close=1, recv=4, cancel=0, release=4, advance=1, burst=2))
         elif pid in ("C09", "C10"):
             for s in g:
                 has_cancel = any(c["c"] == "cancel" for c in s["cmds"])
                 if pid == "C10" and has_cancel:
                     continue
                 scheds.append(dict(s, epilogue="cancel" if has_cancel else "drain"))
-            w = dict(send=4, close=1, recv=4, cancel=(0 if pid == "C10" else 1), release=4, advance=0)
+            w = dict(send=4, close=1, recv=4, cancel=(0 if pid == "C10" else 1), release=4, advance=0, burst=2)
             scheds += rand_scheds(rnd, rng, nrand, ["drain", "closewait"] + (["cancel"] if pid == "C09" else []), weights=w)
+            scheds += special_scheds(pid, th, rng)
         elif pid == "C08":
             for s in res[4]:
                 ended = any(c["c"] in ("cancel", "close") for c in s["cmds"])
@@ -413,6 +420,8 @@ def clocked_models(run, pid, th, d, rng):
 
 def cmd_str(c):
     s = c["c"]
+    if s == "burst":
+        return "burst[" + ", ".join(cmd_str(x) for x in c.get("sub", [])) + "]"
     if s in ("send", "close"):
         s += " in%d" % c["i"] + ("=%d" % c["v"] if c.get("v") else "")
     elif s == "recv":
@@ -493,8 +502,33 @@ def special_scheds(pid, th, rng):
                 out.append({"cfg": C(kind="Emit", cap=cap, freq=freq, mode="pure"), "cmds": cmds, "epilogue": "cancel", "origin": "keep-up"})
                 cmds = [A(3 * freq + 1), R(), R(), A(1), R(), R(), A(freq), R()]
                 out.append({"cfg": C(kind="Emit", cap=cap, freq=freq, mode="try", fail=[1, 4]), "cmds": cmds, "epilogue": "cancel", "origin": "slow-consumer"})
+    B = lambda *cs: {"c": "burst", "sub": list(cs)}
+    if pid == "C09":
+        # more failures outstanding than the error channel holds while its reader lags behind (Try: one error per failing element)
+        for kind in ("Map", "FMap"):
+            for par in (1, 2, 3):
+                for gate in (False, True):
+                    n = 3 * par + 2
+                    cfg = C(kind=kind, forked=True, par=par, cap=1, mode="try", inputs=[list(range(1, n + 1))], fail=list(range(1, n + 1, 1 if gate else 2)) + [n], gate=gate)
+                    cmds = []
+                    for _ in range(n):
+                        cmds += [S(), {"c": "release", "x": -1}, R("out")]
+                    out.append({"cfg": cfg, "cmds": cmds, "epilogue": "drain", "origin": "error-burst"})
+                    out.append({"cfg": cfg, "cmds": [S(), S(), {"c": "release", "x": -1}, {"c": "release", "x": -1}] * (n // 2 + 1), "epilogue": "drain", "origin": "error-burst"})
     if pid == "C08":
         for cap in [0, 1, 2, 3]:
+            # values still in the input buffer when the pump notices the cancel / the close: the sends and the cancel are issued back to back
+            for k in range(1, cap + 1):
+                for pre in ([], [S()], [S(), S(), R()], [R()]):
+                    for end in ({"c": "cancel"}, {"c": "close", "i": 0}):
+                        for rep in range(3):        # the pump's select picks an arm at random: repeat
+                            out.append({"cfg": C(kind="New", cap=cap, inputs=[list(range(1, 9))]), "cmds": pre + [B(*([S()] * k + [end]))],
+                                        "epilogue": "closewait", "origin": "fill-and-end"})
+            # a long backlog that drains partly, grows again well beyond its earlier size, and drains completely
+            n = 60
+            cmds = [S()] * 10 + [R()] * 6 + [S()] * 30 + [R()] * 20 + [S()] * 20 + [R()] * 45
+            out.append({"cfg": C(kind="New", cap=cap, inputs=[list(range(1, n + 1))]), "cmds": cmds, "epilogue": "closewait", "origin": "long-backlog"})
+            out.append({"cfg": C(kind="New", cap=cap, inputs=[list(range(1, n + 1))]), "cmds": cmds[:70], "epilogue": "cancel", "origin": "long-backlog"})
             cmds = [S(), S(), S(), R(), R(), R(), R(), S(), S(), R(), S(), S(), R(), R(), R()]
             for ep in ("cancel", "closewait"):
                 out.append({"cfg": C(kind="New", cap=cap, inputs=[list(range(1, 9))]), "cmds": cmds, "epilogue": ep, "origin": "drain-refill"})
